@@ -1,4 +1,6 @@
 import ACModel.Model.BaseDisc
+import ACModel.Proofs.Merge
+import ACModel.Model.Pipeline
 /-
   C09 — Base discretization honours min_freq and keeps its granularity
 
@@ -326,7 +328,7 @@ theorem length_modifyAt {α : Type} (f : α → α) : ∀ (l : List α) (n : Nat
 
 /-- each iteration removes exactly one modality (so the loop terminates: the number of
     modalities is a sufficient fuel) -/
-theorem mergeStep_length {groups groups' : List (List String)} {stats stats' : List Stat} {lenDf : Nat}
+theorem mergeStep_length {α : Type} {groups groups' : List (List α)} {stats stats' : List Stat} {lenDf : Nat}
     {minFreq : Rat} (hlen : groups.length = stats.length)
     (h : mergeStep groups stats lenDf minFreq = some (groups', stats')) :
     groups'.length + 1 = groups.length ∧ stats'.length + 1 = stats.length := by
@@ -356,7 +358,7 @@ theorem mergeStep_length {groups groups' : List (List String)} {stats stats' : L
       · cases h
 
 /-- when the loop stops by itself, every modality reaches `min_freq` or a single one remains -/
-theorem mergeStep_none {groups : List (List String)} {stats : List Stat} {lenDf : Nat} {minFreq : Rat}
+theorem mergeStep_none {α : Type} {groups : List (List α)} {stats : List Stat} {lenDf : Nat} {minFreq : Rat}
     (h : mergeStep groups stats lenDf minFreq = none) (hlen : groups.length = stats.length) :
     stats.length ≤ 1 ∨ ∀ s ∈ stats, minFreq ≤ (((s.n : Nat) : Rat) / (lenDf : Nat)) := by
   unfold mergeStep at h
@@ -389,7 +391,7 @@ theorem mergeStep_none {groups : List (List String)} {stats : List Stat} {lenDf 
 /-- **After `find_common_modalities` every bucket holds at least `min_freq` of the rows, or a
     single bucket remains** — for every ranking, sample and `min_freq`, with the number of
     modalities as fuel. -/
-theorem mergeLoop_result : ∀ (fuel : Nat) (groups : List (List String)) (stats : List Stat) (lenDf : Nat)
+theorem mergeLoop_result {α : Type} : ∀ (fuel : Nat) (groups : List (List α)) (stats : List Stat) (lenDf : Nat)
     (minFreq : Rat), groups.length = stats.length → stats.length ≤ fuel + 1 →
     (mergeLoop fuel groups stats lenDf minFreq).1.length = (mergeLoop fuel groups stats lenDf minFreq).2.length ∧
     ((mergeLoop fuel groups stats lenDf minFreq).2.length ≤ 1 ∨
@@ -407,12 +409,149 @@ theorem mergeLoop_result : ∀ (fuel : Nat) (groups : List (List String)) (stats
       exact mergeLoop_result fuel g' s' lenDf minFreq (by omega) (by omega)
 
 /-- … instantiated: `find_common_modalities` on a ranking of `n` modalities -/
-theorem findCommonModalities_result (labels : List String) (stats : List Stat) (lenDf : Nat) (minFreq : Rat)
+theorem findCommonModalities_result {α : Type} (labels : List α) (stats : List Stat) (lenDf : Nat) (minFreq : Rat)
     (hlen : labels.length = stats.length) :
     (mergeLoop labels.length (labels.map (fun l => [l])) stats lenDf minFreq).2.length ≤ 1 ∨
       ∀ s ∈ (mergeLoop labels.length (labels.map (fun l => [l])) stats lenDf minFreq).2,
         minFreq ≤ (((s.n : Nat) : Rat) / (lenDf : Nat)) :=
   (mergeLoop_result labels.length _ stats lenDf minFreq (by simpa using hlen) (by omega)).2
+
+
+/-- **Every bucket left by `find_common_modalities` holds at least `min_freq` of the rows, counted on
+    its own members** (or a single bucket remains): the statistics the loop maintains are the sums
+    of the members' rows (`Merge.CountRel`), for every ranking, every sample and every `min_freq`. -/
+theorem ordinal_groups_frequent {α : Type} (cnt : α → Nat) (labels : List α) (stats : List Stat) (lenDf : Nat)
+    (minFreq : Rat) (hinit : stats.map (·.n) = labels.map cnt) :
+    (findCommonModalities labels stats lenDf minFreq).length ≤ 1 ∨
+      ∀ g ∈ findCommonModalities labels stats lenDf minFreq,
+        minFreq ≤ ((((g.map cnt).sum : Nat) : Rat) / (lenDf : Nat)) := by
+  have hlen : labels.length = stats.length := by
+    have := congrArg List.length hinit
+    simpa using this.symm
+  have hinv := Merge.mergeLoop_inv (Merge.CountRel cnt) (Merge.countRel_add cnt) labels.length
+    (labels.map (fun l => [l])) stats lenDf minFreq (Merge.runsOf_singletons labels)
+    (Merge.countRel_singletons cnt labels stats hinit)
+  have hres := mergeLoop_result labels.length (labels.map (fun l => [l])) stats lenDf minFreq (by simpa using hlen) (by omega)
+  unfold findCommonModalities
+  rcases hres.2 with h1 | hall
+  · left; rw [hres.1]; exact h1
+  · right
+    intro g hg
+    obtain ⟨s, hs, hr⟩ := Merge.rel2_mem hinv.2 hg
+    have := hall s hs
+    unfold Merge.CountRel at hr
+    rw [← hr]; exact this
+
+/-- the merging loop never looks at the labels: relabelling commutes with it (so the statement above,
+    with each label paired with its own statistics, applies to any ranking, duplicates included) -/
+theorem findCommonModalities_map {α β : Type} (φ : α → β) (labels : List α) (stats : List Stat) (lenDf : Nat)
+    (minFreq : Rat) :
+    findCommonModalities (labels.map φ) stats lenDf minFreq =
+      (findCommonModalities labels stats lenDf minFreq).map (List.map φ) := by
+  unfold findCommonModalities
+  have := Merge.mergeLoop_map φ labels.length (labels.map (fun l => [l])) stats lenDf minFreq
+  simp only [List.map_map, List.length_map] at this ⊢
+  have h2 : (List.map ((fun l => [l]) ∘ φ) labels) = List.map (List.map φ ∘ fun l => [l]) labels := by
+    apply List.map_congr_left; intro a _; rfl
+  rw [h2, this]
+
+/-- … hence for *any* ranking `labels` with statistics `stats`: every final bucket's rows (the sum
+    over the positions it gathers) reach `min_freq`, or one bucket remains -/
+theorem ordinal_buckets_frequent {α : Type} (labels : List α) (stats : List Stat) (lenDf : Nat) (minFreq : Rat)
+    (hlen : labels.length = stats.length) :
+    let res := findCommonModalities (labels.zip stats) stats lenDf minFreq
+    (findCommonModalities labels stats lenDf minFreq) = res.map (List.map Prod.fst) ∧
+    (res.length ≤ 1 ∨ ∀ g ∈ res, minFreq ≤ ((((g.map (fun p => p.2.n)).sum : Nat) : Rat) / (lenDf : Nat))) := by
+  intro res
+  constructor
+  · have := findCommonModalities_map (Prod.fst : α × Stat → α) (labels.zip stats) stats lenDf minFreq
+    rw [← this]
+    congr 1
+    rw [List.map_fst_zip]; omega
+  · apply ordinal_groups_frequent (fun p : α × Stat => p.2.n)
+    have : (labels.zip stats).map (fun p => p.2.n) = (List.map Prod.snd (labels.zip stats)).map (·.n) := by simp
+    rw [this, List.map_snd_zip]; omega
+
+
+/-! ## The pipelines around the cores (`Model/Pipeline.lean`) -/
+
+/-- `QuantitativeDiscretizer`: a feature that is *not* handed to the merging loop has no bucket at
+    or below `min_freq / 2` (and no missing value) -/
+theorem not_hasRare (stats : List Stat) (nNan lenDf : Nat) (minFreq : Rat)
+    (h : Pipeline.hasRare stats nNan lenDf minFreq = false) :
+    nNan = 0 ∧ ∀ s ∈ stats, minFreq / 2 < (((s.n : Nat) : Rat) / (lenDf : Nat)) := by
+  unfold Pipeline.hasRare at h
+  simp only [Bool.or_eq_false_iff, decide_eq_false_iff_not, Nat.not_lt, Nat.le_zero_eq] at h
+  refine ⟨by omega, ?_⟩
+  intro s hs
+  have := List.any_eq_false.1 h.2 s hs
+  simp only [decide_eq_true_eq] at this
+  exact Rat.not_le.1 this
+
+/-- … and a feature that *is* handed to it comes back with every bucket of interval labels holding
+    at least `min_freq / 2` of the rows, or with a single bucket: `ordinal_buckets_frequent` at the
+    threshold `min_freq / 2` that `quantOrderQ` passes. -/
+theorem quant_buckets_frequent (labels : List String) (stats : List Stat) (lenDf : Nat) (minFreq : Rat)
+    (hlen : labels.length = stats.length) :
+    let res := findCommonModalities (labels.zip stats) stats lenDf (minFreq / 2)
+    res.length ≤ 1 ∨ ∀ g ∈ res, minFreq / 2 ≤ ((((g.map (fun p => p.2.n)).sum : Nat) : Rat) / (lenDf : Nat)) :=
+  (ordinal_buckets_frequent labels stats lenDf (minFreq / 2) hlen).2
+
+theorem mem_insertByKey {α : Type} (key : α → Rat) (x y : α) : ∀ (l : List α),
+    y ∈ Pipeline.insertByKey key x l ↔ y = x ∨ y ∈ l
+  | [] => by simp [Pipeline.insertByKey]
+  | a :: t => by
+    unfold Pipeline.insertByKey
+    split
+    · simp only [List.mem_cons, mem_insertByKey key x y t]
+      constructor
+      · rintro (h | h | h) <;> simp [h]
+      · rintro (h | h | h) <;> simp [h]
+    · simp [List.mem_cons]
+
+theorem mem_sortByKey {α : Type} (key : α → Rat) (y : α) (l : List α) : y ∈ Pipeline.sortByKey key l ↔ y ∈ l := by
+  unfold Pipeline.sortByKey
+  suffices h : ∀ (acc : List α), y ∈ l.foldl (fun acc x => Pipeline.insertByKey key x acc) acc ↔ y ∈ acc ∨ y ∈ l by
+    simpa using h []
+  induction l with
+  | nil => intro acc; simp
+  | cons a t ih =>
+    intro acc
+    simp only [List.foldl_cons, ih, mem_insertByKey, List.mem_cons]
+    constructor
+    · rintro ((h | h) | h) <;> simp [h]
+    · rintro (h | h | h) <;> simp [h]
+
+/-- **A categorical value is sent to the default group iff it is rarer than `min_freq`**: for every
+    observed value other than the missing-value marker, whatever the sample and the user's order. -/
+theorem cat_default_iff_rare (g1 : GL) (rows2 : Pipeline.Rows) (minFreq : Rat) (strNan : String) (v : Val)
+    (hobs : v ∈ Pipeline.uniques rows2) (hne : v ≠ Val.str strNan) :
+    v ∈ Pipeline.catToGroup g1 rows2 minFreq strNan ↔ Pipeline.freqOf rows2 rows2.length v < minFreq := by
+  unfold Pipeline.catToGroup
+  simp only [List.mem_append, List.mem_filter, mem_sortByKey, Bool.and_eq_true, decide_eq_true_eq, bne_iff_ne, ne_eq]
+  constructor
+  · rintro (⟨_, h, _⟩ | ⟨_, h⟩)
+    · exact h
+    · exact absurd hobs h
+  · intro h
+    exact Or.inl ⟨hobs, h, hne⟩
+
+/-- … and the leaders of the user's order that are never observed are sent there too -/
+theorem cat_unobserved_grouped (g1 : GL) (rows2 : Pipeline.Rows) (minFreq : Rat) (strNan : String) (v : Val)
+    (hl : v ∈ g1.lst) (hobs : v ∉ Pipeline.uniques rows2) : v ∈ Pipeline.catToGroup g1 rows2 minFreq strNan := by
+  unfold Pipeline.catToGroup
+  simp only [List.mem_append, List.mem_filter, decide_eq_true_eq]
+  exact Or.inr ⟨hl, hobs⟩
+
+/-- missing values are never sent to the default group -/
+theorem cat_nan_not_grouped (g1 : GL) (rows2 : Pipeline.Rows) (minFreq : Rat) (strNan : String)
+    (hobs : Val.str strNan ∈ Pipeline.uniques rows2) :
+    Val.str strNan ∉ Pipeline.catToGroup g1 rows2 minFreq strNan := by
+  unfold Pipeline.catToGroup
+  simp only [List.mem_append, List.mem_filter, mem_sortByKey, Bool.and_eq_true, decide_eq_true_eq, bne_iff_ne, ne_eq]
+  rintro (⟨_, _, h⟩ | ⟨_, h⟩)
+  · simp at h
+  · exact h hobs
 
 /-! ## Non-vacuity -/
 example : isFrequent 12 3 5 = true := by decide
